@@ -13,7 +13,7 @@ def ruleA : Cls → Rule
   | .idtoken => { mints := [], expiresIn := 300 }
 
 structure DS where
-  cfg : Cfg := { oidc := true, rule := ruleA, revokeRefreshOnIssue := false, allowed := fun _ => [], grantExpiresIn := 43200, authnExpiresIn := 3600 }
+  cfg : Cfg := { oidc := true, jwt := false, rule := ruleA, revokeRefreshOnIssue := false, allowed := fun _ => [], grantExpiresIn := 43200, authnExpiresIn := 3600 }
   st : St := {}
 
 def optId : Option Nat → String
@@ -71,11 +71,11 @@ def parseOp (args : List String) : Option Op :=
 
 def stepLine (d : DS) (args : List String) : DS × String :=
   match args with
-  | ["reset", oidc, al] =>
+  | ["reset", oidc, jwt, al] =>
     match decList al with
     | none => (d, "bad-op")
     | some l =>
-      ({ cfg := { oidc := oidc = "1", rule := ruleA, revokeRefreshOnIssue := false,
+      ({ cfg := { oidc := oidc = "1", jwt := jwt = "1", rule := ruleA, revokeRefreshOnIssue := false,
                   allowed := parseAllowed l, grantExpiresIn := 43200, authnExpiresIn := 3600 }, st := {} }, "ok")
   | _ =>
     match parseOp args with
